@@ -36,9 +36,18 @@ HC == INSTANCE HypCoords
 DrawModels == {"poincare", "halfplane", "klein"}
 
 DgNN(v) == 0 - MNorm(v)
-DgS(v) == Sqrt(DgNN(v))
+\* integer square root of a perfect square by bisection (Rat!Sqrt enumerates 0..n)
+RECURSIVE DgSqrtIn(_, _, _)
+DgSqrtIn(n, lo, hi) == IF lo >= hi THEN lo
+                       ELSE LET mid == (lo + hi) \div 2
+                            IN IF mid * mid >= n THEN DgSqrtIn(n, lo, mid) ELSE DgSqrtIn(n, mid + 1, hi)
+DgSqrt(n) == DgSqrtIn(n, 0, IF n < 46340 THEN n ELSE 46340)
+DgIsSquare(n) == n >= 0 /\ DgSqrt(n) * DgSqrt(n) = n
+DgS(v) == DgSqrt(DgNN(v))
+\* p + q over the least common denominator (RAdd multiplies the denominators: overflow)
+DgRAdd(p, q) == LET l == Lcm(p[2], q[2]) IN R(p[1] * (l \div p[2]) + q[1] * (l \div q[2]), l)
 DgIdeal(v) == DgNN(v) = 0
-DgIsPoint(v) == Len(v) = 3 /\ v[1] > 0 /\ IsPrim(v) /\ DgNN(v) >= 0 /\ IsSquare(DgNN(v))
+DgIsPoint(v) == Len(v) = 3 /\ v[1] > 0 /\ IsPrim(v) /\ DgNN(v) >= 0 /\ DgIsSquare(DgNN(v))
 DgAtInf(v) == v[1] = v[2]                       \* the half-plane point at infinity
 
 \* homogeneous model coordinates <<a, b, t>>
@@ -68,11 +77,12 @@ T2 == Threshold * Threshold
 
 \* "line": exactly straight in the model; "arc": circular arc drawn as such; "chord": circular arc of radius >=
 \* Threshold, drawn as its chord
+\* radius^2 < Threshold^2, written with a floor division (T2 w^2 overflows 32 bits)
 DgKind(m, n) == IF DgW(m, n) = 0 THEN "line"
-                ELSE IF MNorm(n) < T2 * DgW(m, n) * DgW(m, n) THEN "arc" ELSE "chord"
+                ELSE IF MNorm(n) \div (DgW(m, n) * DgW(m, n)) < T2 THEN "arc" ELSE "chord"
 \* the rule "radius < Threshold" is evaluated in floating point by the code: radius = Threshold exactly is
 \* outside the domain
-DgKindDecided(m, n) == MNorm(n) # T2 * DgW(m, n) * DgW(m, n)
+DgKindDecided(m, n) == DgW(m, n) = 0 \/ ~(MNorm(n) % (DgW(m, n) * DgW(m, n)) = 0 /\ MNorm(n) \div (DgW(m, n) * DgW(m, n)) = T2)
 
 \* midpoint of the chord and (chord/2)^2 : the disc of diameter [p, q]
 DgMid(p, q) == <<R(p[1] * q[3] + q[1] * p[3], 2 * p[3] * q[3]), R(p[2] * q[3] + q[2] * p[3], 2 * p[3] * q[3])>>
@@ -173,11 +183,11 @@ DgDescriptorTheorem(m, x, y) ==
   LET n == DgNormal(x, y)
       e == DgEdge(m, x, y)
   IN e.kind # "line" =>
-       /\ RAdd(RSq(RSub(e.p[1], e.c[1])), RSq(RSub(e.p[2], e.c[2]))) = e.r2
-       /\ RAdd(RSq(RSub(e.q[1], e.c[1])), RSq(RSub(e.q[2], e.c[2]))) = e.r2
-       /\ m = "poincare" => RAdd(RSq(e.c[1]), RSq(e.c[2])) = RAdd(ROne, e.r2)
+       /\ DgRAdd(RSq(RSub(e.p[1], e.c[1])), RSq(RSub(e.p[2], e.c[2]))) = e.r2
+       /\ DgRAdd(RSq(RSub(e.q[1], e.c[1])), RSq(RSub(e.q[2], e.c[2]))) = e.r2
+       /\ m = "poincare" => DgRAdd(RSq(e.c[1]), RSq(e.c[2])) = DgRAdd(ROne, e.r2)
        /\ m = "halfplane" => RIsZero(e.c[2])
-       /\ RAdd(RSq(RSub(e.p[1], e.mid[1])), RSq(RSub(e.p[2], e.mid[2]))) = e.h2
+       /\ DgRAdd(RSq(RSub(e.p[1], e.mid[1])), RSq(RSub(e.p[2], e.mid[2]))) = e.h2
        /\ RLess(e.h2, e.r2) \/ (e.h2 = e.r2 /\ DgIdeal(x) /\ DgIdeal(y) /\ m = "halfplane")      \* a minor arc
 
 \* z lies on the horosphere centred at xi through x
@@ -187,7 +197,7 @@ DgHoroTheorem(m, xi, x, U) ==
   \A z \in U : (DgDefined(m, z) /\ ~DgIdeal(z)) =>
     LET c == DgRat(DgCoord(m, z)) IN
     IF h.kind = "flat" THEN DgOnHoro(xi, x, z) <=> (c[2] = h.height)
-    ELSE DgOnHoro(xi, x, z) <=> (RAdd(RSq(RSub(c[1], h.c[1])), RSq(RSub(c[2], h.c[2]))) = RSq(h.r))
+    ELSE DgOnHoro(xi, x, z) <=> (DgRAdd(RSq(RSub(c[1], h.c[1])), RSq(RSub(c[2], h.c[2]))) = RSq(h.r))
 
 \* the model coordinates are those of HypCoords (C01)
 DgCoordsAgree(v) == /\ DgRat(DgCoord("klein", v)) = HC!Klein(v)
